@@ -76,16 +76,26 @@ func Harness_C08_deleteWithXattrs()  { stepXattr(pC08, xDeleteWithXattrs) }
 // C09-A: backfill over an arbitrary table: one event per document of this
 // collection with cas >= start, in CAS order, each describing the row exactly
 // as a live event would.
-func Harness_C09_backfill() {
-	nDocs := 2
-	if verifThorough() {
-		nDocs = 3
-	}
+func Harness_C09_backfill() { backfillOver(2, false) }
+
+// thorough tier: three rows in all six CAS orders; to keep the path count in reach the rows
+// (when present) are live documents of this collection without xattrs, all in range, and the feed is not
+// keys-only (those dimensions are covered with two rows)
+func Harness_C09_backfill3_T() { backfillOver(3, true) }
+
+func backfillOver(nDocs int, narrow bool) {
 	env := verifWorld(true, 2, nDocs)
 	k := &kvCtx{env: env, c: env.colls[0], coll: 1}
 	start := verifU64("start")
 	verifAssume(start < 1<<63)
 	keysOnly := verifBool("keysOnly")
+	if narrow {
+		verifAssume(!keysOnly)
+		for i := 0; i < verifDocSlots(env.db); i++ {
+			d := verifDocSlot(env.db, i)
+			verifAssume(verifImplies(d.Present, verifAnd(d.Coll == 1, d.Value != nil, d.Xattrs == nil, uint64(d.Cas) >= start)))
+		}
+	}
 	var q eventQueue
 	q.init()
 	err := k.c.enqueueBackfillEvents(start, keysOnly, &q)
